@@ -34,7 +34,7 @@ main(void)
 	T0N_CTXT *c = &cc;
 	uint32_t d0;
 #ifdef NATIVE_REPLAY
-	memset(c, 0, sizeof *c);
+	NATIVE_FILL(c, sizeof *c);
 #endif
 	T0F_DEPTH_AT(5);
 	d0 = t0n_dpi;
